@@ -10,18 +10,36 @@ import (
 // WriteSet over-approximates the memory a call may write, by the types of the written locations
 // (Go without unsafe is type safe: a store through *T can only change a location of type T).
 type WriteSet struct {
-	Any   bool
-	Types []types.Type
+	Any    bool
+	Writes []writeDesc
 }
 
-func (w *WriteSet) add(t types.Type) bool {
-	for _, o := range w.Types {
-		if types.Identical(o, t) {
+func (w *WriteSet) addDesc(d writeDesc) bool {
+	for _, o := range w.Writes {
+		if o.kind == d.kind && types.Identical(o.typ, d.typ) && o.field == d.field && (o.st == nil) == (d.st == nil) && (o.st == nil || types.Identical(o.st, d.st)) {
 			return false
 		}
 	}
-	w.Types = append(w.Types, t)
+	w.Writes = append(w.Writes, d)
 	return true
+}
+
+// add: a write through a plain pointer / into an element of the given type.
+func (w *WriteSet) add(t types.Type) bool { return w.addDesc(writeDesc{kind: 'd', typ: t}) }
+
+func (w *WriteSet) addElem(t types.Type) bool { return w.addDesc(writeDesc{kind: 'e', typ: t}) }
+
+func descOfAddr(addr ssa.Value) writeDesc {
+	switch x := addr.(type) {
+	case *ssa.FieldAddr:
+		st := derefType(x.X.Type())
+		if s, ok := st.Underlying().(*types.Struct); ok {
+			return writeDesc{kind: 'f', typ: s.Field(x.Field).Type(), st: st, field: x.Field}
+		}
+	case *ssa.IndexAddr:
+		return writeDesc{kind: 'e', typ: derefType(x.Type())}
+	}
+	return writeDesc{kind: 'd', typ: derefType(addr.Type())}
 }
 
 func (w *WriteSet) union(o *WriteSet) bool {
@@ -33,8 +51,8 @@ func (w *WriteSet) union(o *WriteSet) bool {
 		w.Any = true
 		ch = true
 	}
-	for _, t := range o.Types {
-		if w.add(t) {
+	for _, d := range o.Writes {
+		if w.addDesc(d) {
 			ch = true
 		}
 	}
@@ -97,7 +115,7 @@ func (e *Engine) externWritesByType(f *ssa.Function) *WriteSet {
 			ws.add(u.Elem())
 			reach(u.Elem(), false)
 		case *types.Slice:
-			ws.add(u.Elem())
+			ws.addElem(u.Elem())
 			reach(u.Elem(), false)
 		case *types.Map:
 			reach(u.Elem(), false)
@@ -137,7 +155,7 @@ func (e *Engine) computeWrites(fns []*ssa.Function) {
 					if rootIsPrivateAlloc(x.Addr) {
 						continue
 					}
-					ws.add(derefType(x.Addr.Type()))
+					ws.addDesc(descOfAddr(x.Addr))
 				case *ssa.MapUpdate:
 					// map contents are not numbered as loads
 				case ssa.CallInstruction:
@@ -145,7 +163,7 @@ func (e *Engine) computeWrites(fns []*ssa.Function) {
 						switch b.Name() {
 						case "copy", "append":
 							if sl, ok := x.Common().Args[0].Type().Underlying().(*types.Slice); ok {
-								ws.add(sl.Elem())
+								ws.addElem(sl.Elem())
 							}
 						}
 					}
@@ -218,7 +236,7 @@ func (e *Engine) unknownCallWrites(call ssa.CallInstruction) *WriteSet {
 			case *types.Pointer:
 				ws.add(u.Elem())
 			case *types.Slice:
-				ws.add(u.Elem())
+				ws.addElem(u.Elem())
 			case *types.Basic:
 			default:
 				ws.Any = true
@@ -238,7 +256,7 @@ func (e *Engine) callWrites(a *FuncAn, call ssa.CallInstruction) *WriteSet {
 		switch b.Name() {
 		case "copy", "append":
 			if sl, ok := c.Args[0].Type().Underlying().(*types.Slice); ok {
-				return &WriteSet{Types: []types.Type{sl.Elem()}}
+				return &WriteSet{Writes: []writeDesc{{kind: 'e', typ: sl.Elem()}}}
 			}
 		}
 		return nil
